@@ -148,3 +148,16 @@ Proof.
   destruct (first_stuck w) as [i|] eqn:D; destruct (Stub.run true w) as [[] c|e c|es c|c|]; try contradiction; auto.
   exists i. split; [exact H|]. split; [exact (first_stuck_not_early w i D) | exact (first_stuck_not_late w i D)].
 Qed.
+
+(* the default, error-collecting mode: the first error it lists is that one (StopFirst.stop_first) *)
+Require Import StopFirst.
+Theorem stub_first_error_collecting w es c : Forall (fun k => k <> KEOF) w -> Stub.run false w = RaiseC es c ->
+  exists err l i, es = err :: l /\ fst err = nth i (stub_all w) (KEOF, 0)
+              /\ (forall u, runR G (firstn (S i) (w ++ [KEOF]) ++ u) = false)
+              /\ (exists u, runR G (firstn i w ++ u) = true).
+Proof.
+  intros Fw H. unfold Stub.run, run_on in H.
+  destruct (stop_first sP (number w) tt tt es c H) as (e & l & c' & -> & S1).
+  pose proof (stub_first_error_exact w Fw) as X. unfold Stub.run, run_on in X. rewrite S1 in X.
+  destruct X as (i & A & B & C). exists e, l, i. auto.
+Qed.
